@@ -254,6 +254,105 @@ fn c19(r: &mut Rng, thorough: bool, w: W) -> std::io::Result<()> {
         };
         writeln!(w, "ZTS {} {}", n, hex(&s))?;
     }
+    // the 4-byte ids as seen through dlt_message: raw messages whose id fields hold arbitrary
+    // bytes (NUL in the middle, bytes behind the first NUL, multi-byte scalars, invalid UTF-8)
+    let id_field = |r: &mut Rng| -> Vec<u8> {
+        match r.below(8) {
+            0 => r.bytes(4),
+            1 => {
+                // text, NUL, then more non-NUL bytes
+                let mut f: Vec<u8> = (0..4).map(|_| *r.pick(&ALPHA[1..])).collect();
+                f[r.below(3) as usize] = 0;
+                f
+            }
+            2 => {
+                let mut f = utf8_no_nul(r, 4).into_bytes();
+                f.truncate(4);
+                while f.len() < 4 {
+                    f.push(0);
+                }
+                f
+            }
+            _ => (0..4).map(|_| *r.pick(ALPHA)).collect(),
+        }
+    };
+    let ids_msg = |r: &mut Rng, fixed: Option<(usize, Vec<u8>)>| -> (bool, Vec<u8>) {
+        let storage = r.flip();
+        let weid = r.chance(3, 4);
+        let wsid = r.flip();
+        let wtms = r.flip();
+        let ueh = r.chance(3, 4);
+        let mut fields: Vec<Vec<u8>> = (0..4).map(|_| id_field(r)).collect();
+        if let Some((i, f)) = fixed {
+            fields[i] = f;
+        }
+        let mut b = vec![];
+        if storage {
+            b.extend_from_slice(&[0x44, 0x4C, 0x54, 0x01]);
+            b.extend_from_slice(&r.bytes(8));
+            b.extend_from_slice(&fields[0]);
+        }
+        let htyp = (ueh as u8) | ((r.flip() as u8) << 1) | ((weid as u8) << 2) | ((wsid as u8) << 3)
+            | ((wtms as u8) << 4) | (1 << 5);
+        let plen = 4 + r.below(6) as usize;
+        let payload = r.bytes(plen);
+        let len = 4 + 4 * (weid as usize + wsid as usize + wtms as usize) + 10 * (ueh as usize) + payload.len();
+        b.push(htyp);
+        b.push(r.below(256) as u8);
+        b.extend_from_slice(&(len as u16).to_be_bytes());
+        if weid {
+            b.extend_from_slice(&fields[1]);
+        }
+        if wsid {
+            b.extend_from_slice(&r.bytes(4));
+        }
+        if wtms {
+            b.extend_from_slice(&r.bytes(4));
+        }
+        if ueh {
+            // non-verbose log message
+            b.push((r.below(7) as u8) << 4);
+            b.push(0);
+            b.extend_from_slice(&fields[2]);
+            b.extend_from_slice(&fields[3]);
+        }
+        b.extend_from_slice(&payload);
+        if r.chance(1, 4) {
+            let k = r.below(6) as usize;
+            b.extend_from_slice(&r.bytes(k));
+        }
+        (storage, b)
+    };
+    let n = if thorough { 200_000 } else { 8_000 };
+    for _ in 0..n {
+        let (st, b) = ids_msg(r, None);
+        writeln!(w, "IDS {} {}", p_bool(st), hex(&b))?;
+    }
+    // every 4-byte string over the alphabet in one of the four fields (thorough: all 15^4;
+    // quick: all strings with a NUL in second or third position, 2 * 15^3)
+    let mut idx = [0usize; 4];
+    'outer: loop {
+        let f: Vec<u8> = idx.iter().map(|i| ALPHA[*i]).collect();
+        if thorough || f[1] == 0 || f[2] == 0 {
+            let which = 1 + (idx[0] + idx[3]) % 3;
+            let (st, b) = ids_msg(r, Some((which, f)));
+            writeln!(w, "IDS {} {}", p_bool(st), hex(&b))?;
+        }
+        let mut i = 4;
+        loop {
+            if i == 0 {
+                break 'outer;
+            }
+            i -= 1;
+            if idx[i] + 1 < ALPHA.len() {
+                idx[i] += 1;
+                for c in idx.iter_mut().skip(i + 1) {
+                    *c = 0;
+                }
+                break;
+            }
+        }
+    }
     Ok(())
 }
 
